@@ -63,6 +63,7 @@ type Contract struct {
 	File          *ast.File
 	Params        []string // for externs/functypes without resolvable decl: optional names
 	Observes      []*Observe
+	NoSafety      bool // `safety off`: no-panic obligations are not generated for this function (partial correctness)
 	Overwrites    []string      // parameters (pointers to structs) every field of which is assigned on every path to a return
 	Pairs         string        // the load-time checker whose acceptance establishes the `checked` clauses
 	Checked       []*Clause     // facts established at load time by the paired checker (assumed at entry, proved as lemmas from the checker's postconditions)
@@ -320,6 +321,8 @@ func (cs *ContractSet) readFile(fset *token.FileSet, f *ast.File, pkgPath, pkgNa
 					cur.Trusted = true
 				case "params":
 					cur.Params = strings.Fields(rest)
+				case "safety":
+					cur.NoSafety = rest == "off"
 				case "overwrites":
 					// overwrites p [-field ...]: one parameter per clause; excluded field paths follow with a leading '-'
 					cur.Overwrites = append(cur.Overwrites, rest)
@@ -458,6 +461,9 @@ func (cs *ContractSet) resolveLikes() {
 			rec(t, depth+1)
 			ct.Requires = append(notOwn(t.Requires), ct.Requires...)
 			ct.Ensures = append(notOwn(t.Ensures), ct.Ensures...)
+			if t.NoSafety {
+				ct.NoSafety = true
+			}
 			if t.HasMod && !ct.HasMod {
 				ct.Modifies = append([]string{}, t.Modifies...)
 				ct.HasMod = true
